@@ -11,7 +11,7 @@ from sa.report import Ctx
 
 from .common import generic_sweeps
 
-from .sat_common import SatRoles, _enclosing_block, check_add_sites, check_assumption_assertion, check_assign, check_backtrack, check_heap_flags, check_variable_universe
+from .sat_common import SatRoles, _enclosing_block, check_add_sites, check_assumption_assertion, check_analysis, check_assign, check_backtrack, check_bcp, check_heap_flags, check_variable_universe
 
 EXPLANATION = (
     "Decides structural necessary conditions of 'every returned assignment satisfies every clause / agrees with "
@@ -39,6 +39,8 @@ def run(ctx: Ctx):
     check_heap_flags(ctx, "C01-O7")
     check_variable_universe(ctx, "C01-O8")
     check_assign(ctx, "C01-O9")
+    check_bcp(ctx, "C01-O10")
+    check_analysis(ctx, "C01-O11")
     generic_sweeps(ctx, skip_stutter_modules=("solvor/sat.py",))
 
 
@@ -285,6 +287,16 @@ def _v_assign_level_of_previous(tree):
     M.replace_expr(g, lambda e: M.src_is(e, "len(trail_lim)"), M.expr("len(trail_lim) - 1"))
 
 
+def _v_bcp_unit_without_search(tree):
+    g = M.find_func(tree, "solve_sat.propagate")
+    M.replace_stmt(g, lambda s: isinstance(s, ast.If) and M.src_is(s.test, "found"), [])
+
+
+def _v_analysis_keeps_true_literal(tree):
+    g = M.find_func(tree, "solve_sat.analyze.add_lit")
+    M.replace_expr(g, lambda e: isinstance(e, ast.IfExp) and M.src_has(e, "lit_neg(lit)"), M.expr("lit"))
+
+
 def _v_flag_kept_on_skip(tree):
     g = M.find_func(tree, "solve_sat.pick_var")
     M.replace_stmt(g, lambda s: M.src_is(s, "in_heap[var] = False"), [])
@@ -331,6 +343,8 @@ VARIANTS = [
     M.Variant("twin: unassign_to in single-exit form", SAT, _t_unassign_single_exit, None),
     M.Variant("variable count taken from the clauses only (original defect)", SAT, _v_universe_from_clauses_only, "C01-O8"),
     M.Variant("assign records the previous decision level", SAT, _v_assign_level_of_previous, "C01-O9"),
+    M.Variant("propagation treats a clause as unit although a replacement watch was found", SAT, _v_bcp_unit_without_search, "C01-O10"),
+    M.Variant("conflict analysis puts true literals into the learned clause", SAT, _v_analysis_keeps_true_literal, "C01-O11"),
     M.Variant("twin: reformat only", SAT, _t_reformat, None),
     M.Variant("twin: rename locals of the backtrack routine", SAT, _t_rename, None),
     M.Variant("twin: backtrack written as pop-and-cut loop", SAT, _t_pop_form, None),
